@@ -35,6 +35,9 @@ def dispatch_chain(f):
             continue
         a = call_args(call)
         ent = fe.ref_name(a[2])
+        r2 = strip(a[2])
+        if r2.get('kind') != 'DeclRefExpr' or r2['referencedDecl'].get('kind') != 'FunctionDecl':
+            return None            # the routine is started through a function pointer: the chain is somewhere else
         for c in flow.path_conditions(pm, call):
             for en in enums_in(c):
                 handled.setdefault(en, set()).add(ent)
@@ -62,6 +65,9 @@ def cv1(chk, prog):
             chk.broke('CV routine %s not found' % name)
             continue
         per[name] = dispatch_chain(f)
+        if per[name] is None:
+            chk.broke('CV1: %s starts its worker through a function pointer; its learner dispatch is not decided' % name)
+            per.pop(name)
     allen = set()
     for h in per.values():
         allen |= set(h)
